@@ -245,6 +245,36 @@ def run_case(case, workdir, mode="C04"):
 _fabpat_cache = {}
 
 
+_IDX_LINE = re.compile(r"^\(\(([-\d,]+)\)\s+\(([-\d,]+)\)\s+\(([-\d,]+)\)\)\s*$")
+
+
+def own_level_indexes(mp):
+    """per level, the index ranges listed in the level header that the Header's k-th path line names; None where unreadable"""
+    try:
+        with open(os.path.join(mp, "Header")) as f:
+            lines = f.read().split("\n")
+        dirs = [l.strip() for l in lines if l.strip().endswith("/Cell") and " " not in l.strip()]
+        out = []
+        for dline in dirs:
+            try:
+                with open(os.path.join(mp, dline + "_H")) as f:
+                    L = f.read().split("\n")
+                nb = int(L[4].split()[0].lstrip("("))
+                rows = []
+                for l in L[5:5 + nb]:
+                    m = _IDX_LINE.match(l.strip())
+                    if not m:
+                        rows = None
+                        break
+                    rows.append((tuple(int(a) for a in m.group(1).split(",")), tuple(int(a) for a in m.group(2).split(","))))
+                out.append(rows)
+            except Exception:
+                out.append(None)
+        return out
+    except Exception:
+        return None
+
+
 def c20_oracle(rec, dh, sub, mp, limit, coords, ref, rb):
     """For a mutant that default validation reports good: every box reads, has the declared shape and
     the values of a FAB in its file whose header names that range."""
@@ -263,6 +293,15 @@ def c20_oracle(rec, dh, sub, mp, limit, coords, ref, rb):
         rec.fail("accepted_but_unopenable", sub, exc_text(pck))
         return
     nf = len(pck.fields)
+    # the index ranges the reader holds for level k are those of level k's OWN header (named by the k-th `<dir>/Cell` line of the
+    # Header), read here independently and leniently (no demand where that fails)
+    own = own_level_indexes(mp)
+    for lv in range(pck.limit_level + 1):
+        if own is not None and lv < len(own) and own[lv] is not None:
+            got_ = [(tuple(int(v) for v in i_[0]), tuple(int(v) for v in i_[1])) for i_ in pck.cells[lv]["indexes"]]
+            if got_ != own[lv]:
+                rec.fail("accepted_but_wrong_level_header", dict(sub, level=lv),
+                         "the reader holds %d boxes %r... for level %d, its level header lists %d boxes %r..." % (len(got_), got_[:1], lv, len(own[lv]), own[lv][:1]))
     for lv in range(pck.limit_level + 1):
         for b in range(len(pck.cells[lv]["indexes"])):
             idx = pck.cells[lv]["indexes"][b]
